@@ -63,6 +63,10 @@ REG(r3, "c09.n2l2all", 2, 2, 8, 16, "all 16.8M ordered pairs of FA(2,{a,b},any) 
 REG(r4, "c09.n3l1k4", 3, 1, 4, 8, "all ordered pairs of FA(3,{a},<=4 edges per side)")
 REG(r5, "c09.n3l2t4", 3, 2, 4, 4, "ordered pairs of FA(3,{a,b}) with total <=4 edges")
 
+REG(r6, "c09.n3l1k3", 3, 1, 3, 6, "all ordered pairs of FA(3,{a},<=3 edges per side)")
+REG(r7, "c09.n3l2t3", 3, 2, 3, 3, "ordered pairs of FA(3,{a,b}) with total <=3 edges")
+static Register t4("c09.trim.n3l1k4", "C09", "all ordered pairs of TRIMMED NFAs of FA(3,{a},<=4 edges)", [](Env& e) { body(e, "c09.trim.n3l1k4", 3, 1, 4, 8, true); });
+static Register t5("c09.trim.n3l2k3t5", "C09", "ordered pairs of TRIMMED NFAs of FA(3,{a,b},<=3 edges) with <=5 edges in total", [](Env& e) { body(e, "c09.trim.n3l2k3t5", 3, 2, 3, 5, true); });
 static Register t1("c09.trim.n3l2k3", "C09", "all ordered pairs of TRIMMED NFAs of FA(3,{a,b},<=3 edges) x 3 algorithms x raw/prepared", [](Env& e) { body(e, "c09.trim.n3l2k3", 3, 2, 3, 6, true); });
 static Register t2("c09.trim.n3l2k4t7", "C09", "ordered pairs of TRIMMED NFAs of FA(3,{a,b},<=4 edges) with <=7 edges in total", [](Env& e) { body(e, "c09.trim.n3l2k4t7", 3, 2, 4, 7, true); });
 static Register t3("c09.trim.n3l1k5", "C09", "all ordered pairs of TRIMMED NFAs of FA(3,{a},<=5 edges)", [](Env& e) { body(e, "c09.trim.n3l1k5", 3, 1, 5, 10, true); });
